@@ -31,8 +31,19 @@ SHIM = os.path.join(V.VERIF, "harness/common/pmpi_sched.c")
 class Case:
     """P, two, ign, incself, mode, seed, ign2, resize, src[ph][r], dst[ph][r] (lists of (g, li, attr, pub) sorted by (g, attr)),
     hints[r], orders[r]"""
+    def tw(self, r):
+        """does rank r pass two index-set objects (source_ != target_)?  c.twos (per rank) overrides the uniform c.two"""
+        t = getattr(self, "twos", None)
+        return bool(t[r]) if t is not None else bool(self.two)
+
+    def mixed(self):
+        return len({self.tw(r) for r in range(self.P)}) > 1
+
+    def twocode(self):
+        return 2 + sum(1 << r for r in range(self.P) if self.tw(r)) if self.mixed() else int(self.tw(0))
+
     def line(self):
-        t = [self.P, int(self.two), int(self.ign), int(self.incself), self.mode, self.seed, int(self.ign2), self.resize]
+        t = [self.P, self.twocode(), int(self.ign), int(self.incself), self.mode, self.seed, int(self.ign2), self.resize]
         for ph in (0, 1):
             for r in range(self.P):
                 for s in (self.src[ph][r], self.dst[ph][r]):
@@ -48,7 +59,9 @@ def parse_case(line):
     def nx():
         v = t[pos[0]]; pos[0] += 1; return v
     c = Case()
-    c.P, c.two, c.ign, c.incself, c.mode, c.seed, c.ign2, c.resize = nx(), nx() == 1, nx() == 1, nx() == 1, nx(), nx(), nx() == 1, nx()
+    c.P, code, c.ign, c.incself, c.mode, c.seed, c.ign2, c.resize = nx(), nx(), nx() == 1, nx() == 1, nx(), nx(), nx() == 1, nx()
+    c.two = code != 0
+    if code >= 2: c.twos = [bool(((code - 2) >> r) & 1) for r in range(c.P)]
     def rset():
         return [(nx(), nx(), nx(), nx()) for _ in range(nx())]
     c.src, c.dst = [[], []], [[], []]
@@ -74,12 +87,12 @@ def spec_map(c, ph, ign):
     """per rank: dict q -> (send, recv[, send_lo, recv_lo]); for the undocumented combination two sets + includeSelf the self entry is
     only bounded: lo (equal-attribute pairs dropped) <= impl <= hi (full intersection)."""
     res = []
-    tgt = (lambda r: c.dst[ph][r]) if c.two else (lambda r: c.src[ph][r])
+    tgt = lambda r: c.dst[ph][r] if c.tw(r) else c.src[ph][r]
     for p in range(c.P):
         m = {}
         for q in range(c.P):
             if q == p:
-                if c.two:
+                if c.tw(p):
                     hi = (join(False, pub(ign, c.src[ph][p]), pub(ign, tgt(p))), join(False, pub(ign, tgt(p)), pub(ign, c.src[ph][p])))
                     if c.incself:
                         lo = (join(True, pub(ign, c.src[ph][p]), pub(ign, tgt(p))), join(True, pub(ign, tgt(p)), pub(ign, c.src[ph][p])))
@@ -139,6 +152,8 @@ def oracle(c, impl_line):
     """None if the property accepts the impl's observation, else (kind, reason)."""
     if impl_line.startswith("CRASH") or impl_line.startswith("HANG") or impl_line.startswith("NOT-RUN"):
         return ("hang" if "HANG" in impl_line else "crash", impl_line)
+    if "{SEGV}" in impl_line:
+        return ("crash", "reading the local index pair of a remote index (RemoteIndex::localIndexPair()) dereferenced an invalid pointer: " + impl_line[:300])
     parts = impl_line.split(" ; ")
     if len(parts) != c.P: return ("format", "expected %d rank records, got %d" % (c.P, len(parts)))
     e1 = spec_map(c, 0, c.ign)
@@ -159,7 +174,7 @@ def oracle(c, impl_line):
 
 
 def sig_of(c, kind, gtype=0):
-    return "C04:%s:%s:%s%s" % (kind, "two" if c.two else "one", "nbr" if c.mode else "ring", (":gtype=" + GTYPES[gtype]) if gtype else "")
+    return "C04:%s:%s:%s%s" % (kind, "mixed" if c.mixed() else "two" if c.two else "one", "nbr" if c.mode else "ring", (":gtype=" + GTYPES[gtype]) if gtype else "")
 
 
 GTYPES = ["int", "long", "unsigned_long_long", "bigunsignedint55", "bigunsignedint64", "bigunsignedint100"]
@@ -181,7 +196,7 @@ def sharing(c):
         for p in range(c.P):
             for q in range(c.P):
                 if p == q: continue
-                sp = {x[0] for x in c.src[ph][p]}; tq = {x[0] for x in (c.dst[ph][q] if c.two else c.src[ph][q])}
+                sp = {x[0] for x in c.src[ph][p]}; tq = {x[0] for x in (c.dst[ph][q] if c.tw(q) else c.src[ph][q])}
                 if sp & tq: g[p].add(q); g[q].add(p)
     return g
 
@@ -262,7 +277,11 @@ def mutate_set(rng, s, U, attrs):
 def gen_random(rng, P, seedno):
     c = Case()
     c.P = P
-    c.two = rng.random() < 0.45
+    c.two = rng.random() < 0.5
+    if c.two and P >= 2 and rng.random() < 0.4:      # mixed: some ranks pass ONE object for both roles, the others two
+        while True:
+            c.twos = [rng.random() < 0.5 for _ in range(P)]
+            if len(set(c.twos)) > 1: break
     c.ign = rng.random() < 0.35; c.ign2 = c.ign if rng.random() < 0.6 else (not c.ign)
     c.incself = rng.random() < 0.35
     c.mode = 1 if rng.random() < 0.5 else 0
@@ -277,12 +296,14 @@ def gen_random(rng, P, seedno):
     ss = gen_decomp(rng, P, U, kind, dens)
     c.src = [[gen_set(rng, ss[p], attrs, pubmode, dup) for p in range(P)], None]
     if c.two:
+        if c.mixed(): dup = False             # the two-list unpackIndices handles one copy per global index only
         tt = gen_decomp(rng, P, U, rng.choice([kind, "random", "complete"]), dens) if rng.random() < 0.7 else ss
-        c.dst = [[gen_set(rng, tt[p], attrs, pubmode, dup) for p in range(P)], None]
+        if c.mixed(): c.src = [[gen_set(rng, ss[p], attrs, pubmode, False) for p in range(P)], None]
+        c.dst = [[gen_set(rng, tt[p], attrs, pubmode, dup) if c.tw(p) else [] for p in range(P)], None]
     else:
         c.dst = [[[] for _ in range(P)], None]
-    c.src[1] = [mutate_set(rng, s, U, attrs) if (c.resize & 1 or (not c.two and c.resize)) else list(s) for s in c.src[0]]
-    c.dst[1] = [mutate_set(rng, s, U, attrs) if (c.two and c.resize & 2) else list(s) for s in c.dst[0]]
+    c.src[1] = [mutate_set(rng, s, U, attrs) if (c.resize & 1 or (not c.tw(p) and c.resize)) else list(s) for p, s in enumerate(c.src[0])]
+    c.dst[1] = [mutate_set(rng, s, U, attrs) if (c.tw(p) and c.resize & 2) else list(s) for p, s in enumerate(c.dst[0])]
     return finish_case(c, rng)
 
 
@@ -571,6 +592,19 @@ def run_impl(ctx, exe, cases, tag, tmo=None, env=None, hist=False):
     return out, shim
 
 
+def run_split(ctx, exe, cases, tag, **kw):
+    """mixed one-object/two-object cases run in launches of their own: while finding F-C04-1 is open they can crash the
+    impl, and a crashing case costs the cases queued behind it in the same launch"""
+    ia = [i for i, c in enumerate(cases) if not c.mixed()]; ib = [i for i, c in enumerate(cases) if c.mixed()]
+    out = [None] * len(cases); shim = [0, 0, 0]
+    for idx, t in ((ia, tag), (ib, tag + "m")):
+        if not idx: continue
+        res, sh = run_impl(ctx, exe, [cases[i] for i in idx], t, **kw)
+        for i, l in zip(idx, res): out[i] = l
+        for k in range(3): shim[k] += sh[k]
+    return out, shim
+
+
 def rerun_alone(ctx, exe, c, tag, gtype=0):
     res, _ = run_impl(ctx, exe, [c], tag, tmo=120, env={"C04_GTYPE": str(gtype)})
     return res[0]
@@ -613,7 +647,7 @@ def run(ctx):
     lines = [c.line() for c in cases]
     ctx.log("generated %d cases" % len(cases))
     mo = V.run_cases(ctx, [model], lines, tag="model", timeout=900)
-    io, shim = run_impl(ctx, exe, cases, "impl")
+    io, shim = run_split(ctx, exe, cases, "impl")
     # a timed-out / crashed case is re-run once alone before it is believed
     nrerun = 0
     for i, l in enumerate(io):
@@ -626,7 +660,7 @@ def run(ctx):
             io[i] = l2
     # the same cases once more with the global index type rotating over long / unsigned long long / bigunsignedint<55|64|100>
     # (ids embedded order-preservingly so that the top bits / the most significant digit are in use): same observation required
-    gio, _ = run_impl(ctx, exe, cases, "gimpl", env={"C04_GTYPE": "rot"})
+    gio, _ = run_split(ctx, exe, cases, "gimpl", env={"C04_GTYPE": "rot"})
     ngt, gstat = 0, {}
     for i, (c, a) in enumerate(zip(cases, gio)):
         gt = gtype_of(lines[i]); gstat[GTYPES[gt]] = gstat.get(GTYPES[gt], 0) + 1
@@ -685,7 +719,11 @@ def run(ctx):
                                                            "case": hlines[i], "model": mm, "spec": spec}, found_input=False)
     # ASan/UBSan build on a subsample (memory safety of the unpack loops and of the pointer-carrying lists)
     sub = list(range(0, len(cases), 9 if ctx.quick else 4))
-    so, _ = run_impl(ctx, exe_san, [cases[i] for i in sub], "san", tmo=60 if ctx.quick else 120,
+    if any(k.get("id") == "F-C04-1" and k.get("status") == "known" for k in V.load_known("C04")) and not os.environ.get("C04_SAN_MIXED"):
+        # while F-C04-1 is open the mixed configurations read outside an array: ASan would abort launch after launch
+        sub = [i for i in sub if not cases[i].mixed()]
+        ctx.notes.append("sanitizer pass skips the mixed one-set/two-set cases while finding F-C04-1 is listed as known")
+    so, _ = run_split(ctx, exe_san, [cases[i] for i in sub], "san", tmo=60 if ctx.quick else 120,
                      env={"ASAN_OPTIONS": "detect_leaks=0:abort_on_error=0", "UBSAN_OPTIONS": "print_stacktrace=0"})
     nsan = 0
     for j, i in enumerate(sub):
@@ -702,7 +740,7 @@ def run(ctx):
         mm, _, spec = m.partition(" | ")
         stats["P"][c.P] = stats["P"].get(c.P, 0) + 1
         stats["mode"]["nbr" if c.mode else "ring"] = stats["mode"].get("nbr" if c.mode else "ring", 0) + 1
-        stats["two"] += c.two; stats["ign"] += c.ign; stats["incself"] += c.incself
+        stats["two"] += c.two; stats["mixed_one_two"] = stats.get("mixed_one_two", 0) + c.mixed(); stats["ign"] += c.ign; stats["incself"] += c.incself
         stats["resize"][c.resize] = stats["resize"].get(c.resize, 0) + 1
         if any(len({x[0] for x in s}) < len(s) for s in c.src[0] + c.dst[0]): stats["dup_globals"] += 1
         stats["nonpublic_pairs"] += sum(1 for s in c.src[0] + c.dst[0] for x in s if not x[3])
